@@ -381,7 +381,8 @@ def _fork_copy(target):
 
 class FakePool:
     """multiprocessing.Pool with W logical workers.  Tasks are handed out in
-    order (chunksize 1) to idle workers; *completion order* is decided by the
+    order to idle workers (imap_unordered with chunksize > 1: in chunks that are evaluated and
+    pickled as a whole, like multiprocessing's mapstar); *completion order* is decided by the
     scheduler (imap_unordered / map).  Functions, arguments and results go
     through pickle like in the real pool."""
 
@@ -440,6 +441,27 @@ class FakePool:
         tasks = list(iterable)
         func = _pickle_roundtrip(func)
         self.calls += 1
+        if chunksize is not None and chunksize > 1:
+            # like multiprocessing: the unit of dispatch is a chunk; the worker evaluates the WHOLE chunk and only then
+            # pickles the tuple of its results in one go (mapstar) - objects shared between results of a chunk stay shared
+            chunks = [tasks[i:i + chunksize] for i in range(0, len(tasks), chunksize)]
+            if self.order_source is not None:
+                corder = self._completion_order(len(chunks))
+            else:
+                corder = []
+                running, nxt = [], 0
+                while len(corder) < len(chunks):
+                    while len(running) < self.W and nxt < len(chunks):
+                        running.append(nxt)
+                        nxt += 1
+                    pick = self.s.point(("complete", self.id), lambda r=tuple(running): list(r))
+                    running.remove(pick)
+                    corder.append(pick)
+            self.s.emit(ev="imap", W=self.W, nt=len(chunks), order=[i + 1 for i in corder], chunksize=chunksize)
+            for ci in corder:
+                args = _pickle_roundtrip(tuple(chunks[ci]))
+                yield from _pickle_roundtrip(tuple(func(a) for a in args))
+            return
         if self.order_source is not None:
             order = self._completion_order(len(tasks))
             self.s.emit(ev="imap", W=self.W, nt=len(tasks), order=[i + 1 for i in order])
